@@ -29,6 +29,9 @@ type C10Case struct {
 	Variant  int           `json:"variant"`
 	Faults   []world.Fault `json:"faults"`
 	AlgFault string        `json:"alg_fault,omitempty"` // "" | bogus | sha512
+	// Warm: before the faults are switched on, the same provider serves the same kind of request (and the metadata, certificate
+	// and attribute endpoints) once without any fault. What it may have kept from then must not paper over the failure.
+	Warm bool `json:"warm,omitempty"`
 }
 
 var c10Scenarios = []string{
@@ -161,7 +164,9 @@ type c10Result struct {
 func c10Run(c C10Case) c10Result {
 	now := time.Now()
 	spec, hr := c10Build(c.Scenario, c.Variant, now)
-	spec.Faults = c.Faults
+	if !c.Warm {
+		spec.Faults = c.Faults
+	}
 	algFired := false
 	switch c.AlgFault {
 	case "bogus":
@@ -178,6 +183,15 @@ func c10Run(c C10Case) c10Result {
 		algFired = c10Signing[c.Scenario] && c.Scenario != "callback-redirect-done"
 	}
 	w := mustBuild(spec)
+	if c.Warm {
+		obs.Do(w.Handler, hr)
+		for _, sc := range []string{"metadata-unsigned", "certificate", "attrquery", "sso-post", "callback-post-done"} {
+			_, other := c10Build(sc, c.Variant, now)
+			obs.Do(w.Handler, other)
+		}
+		w.Store.SetFaults(c.Faults) // also resets the call counters: occurrences count from here
+		w.Store.ResetLog()
+	}
 	rep := obs.Do(w.Handler, hr)
 	res := c10Result{ops: map[string]int{}, status: rep.Status}
 	calls := w.Store.Calls()
@@ -285,6 +299,7 @@ func TestC10Enum(t *testing.T) {
 				var cases []C10Case
 				for _, p := range points {
 					cases = append(cases, C10Case{Scenario: sc, Variant: v, Faults: []world.Fault{p}})
+					cases = append(cases, C10Case{Scenario: sc, Variant: v, Faults: []world.Fault{p}, Warm: true})
 				}
 				for _, alg := range []string{"bogus", "sha512"} {
 					cases = append(cases, C10Case{Scenario: sc, Variant: v, AlgFault: alg})
@@ -335,7 +350,7 @@ func TestC10Enum(t *testing.T) {
 var c10AllOps = []string{"Health", "GetCA", "GetMetadataSigningKey", "GetResponseSigningKey", "GetEntityByID", "GetEntityIDByAppID", "CreateAuthRequest", "AuthRequestByID", "SetUserinfoWithUserID", "SetUserinfoWithLoginName"}
 
 func genC10Case(t *rapid.T) C10Case {
-	c := C10Case{Scenario: pick(t, "scenario", c10Scenarios), Variant: rapid.IntRange(0, 35).Draw(t, "variant")}
+	c := C10Case{Scenario: pick(t, "scenario", c10Scenarios), Variant: rapid.IntRange(0, 35).Draw(t, "variant"), Warm: rapid.Bool().Draw(t, "warm")}
 	n := rapid.IntRange(1, 3).Draw(t, "nfaults")
 	for i := 0; i < n; i++ {
 		op := pick(t, "op", c10AllOps)
